@@ -266,7 +266,19 @@ fn step_monitors(w: &World, m: usize, mon: &mut Mon, ctx: &str) {
 fn redelivery_probe(w: &mut World, m: usize, idx: usize, reps: usize, mon: &mut Mon, ctx: &str) {
     let g = w.log[idx].g;
     let gids: Vec<GroupId> = w.groups.iter().map(|x| x.gid.clone()).collect();
+    // A stored message that a rollback made decryptable again would be re-saved with a new
+    // processed_at (1 s granularity): for half of the re-deliveries of stored foreign messages at
+    // clients that have rolled back since they stored them, wait for the wall-clock second to change first, so that a
+    // rewrite cannot hide inside the second of the first processing.
+    let c = &w.clients[m];
+    let rolled_back_since = c.first_offer_seq.get(&idx).map(|s| *s < c.last_rollback_seq).unwrap_or(false);
+    if w.log[idx].kind == PubKind::App && w.log[idx].author != m && rolled_back_since && c.first_result.get(&idx).map(|r| r == "ApplicationMessage").unwrap_or(false) && (idx + m) % 2 == 0 {
+        let now = std::time::SystemTime::now().duration_since(std::time::UNIX_EPOCH).map(|d| d.subsec_millis()).unwrap_or(0);
+        std::thread::sleep(std::time::Duration::from_millis(1020 - now as u64));
+        mon.count("c07_redeliveries_after_second_boundary");
+    }
     let before: Vec<Fp> = gids.iter().map(|gid| w.clients[m].fp(gid)).collect();
+    let pat_before: Vec<String> = gids.iter().map(|gid| w.clients[m].processed_at_view(gid)).collect();
     let mut classes = vec![];
     for _ in 0..reps {
         let d = w.deliver(m, idx, OwnMode::Echo);
@@ -282,6 +294,7 @@ fn redelivery_probe(w: &mut World, m: usize, idx: usize, reps: usize, mon: &mut 
         }
     }
     let after: Vec<Fp> = gids.iter().map(|gid| w.clients[m].fp(gid)).collect();
+    let pat_after: Vec<String> = gids.iter().map(|gid| w.clients[m].processed_at_view(gid)).collect();
     mon.count("c07_redeliveries");
     let p = &w.log[idx];
     let kind = match (p.kind, p.author == m) {
@@ -302,6 +315,17 @@ fn redelivery_probe(w: &mut World, m: usize, idx: usize, reps: usize, mon: &mut 
                 "C07",
                 format!("C07|changed|{kind}|parts={}|{}|result={}", parts.join("+"), if gi == g { "same-group" } else { "other-group" }, classes[0]),
                 format!("re-delivering e{idx} ({kind}, created at epoch {}) to c{m} at epoch {cur_epoch} x{reps} changed {:?} of group g{gi}; e.g. {}: `{}` -> `{}` ({ctx})", p.at.1, parts, parts[0], crate::util::short(b.part(parts[0]), 200), crate::util::short(a.part(parts[0]), 200)),
+            );
+            return;
+        }
+    }
+    for (gi, (b, a)) in pat_before.iter().zip(pat_after.iter()).enumerate() {
+        if b != a {
+            let (lb, la) = b.lines().zip(a.lines()).find(|(x, y)| x != y).unwrap_or(("", ""));
+            mon.find(
+                "C07",
+                format!("C07|changed|{kind}|parts=PROCESSED_AT|{}|result={}", if gi == g { "same-group" } else { "other-group" }, classes[0]),
+                format!("re-delivering e{idx} ({kind}, created at epoch {}) to c{m} at epoch {cur_epoch} x{reps} rewrote a stored message (processed_at / listing order changed) in group g{gi}: `{}` -> `{}` ({ctx})", p.at.1, crate::util::short(lb, 400), crate::util::short(la, 400)),
             );
             return;
         }
